@@ -166,7 +166,7 @@ namespace {
    int do_record(int argc, char** argv)
    {
       unsigned long seed = 1;
-      int runs = 10, len = 100, noise = 0, focus = 0;
+      int runs = 10, len = 100, noise = 0, focus = 0, edge = 0;
       std::vector<std::string> ops = all_ops;
       for (int k = 2; k + 1 < argc; k += 2) {
          std::string f = argv[k], v = argv[k + 1];
@@ -181,6 +181,7 @@ namespace {
             while (std::getline(ss, o, '|')) vocabulary.push_back(o);
          }
          else if (f == "--noise") noise = std::stoi(v);   // unrelated insertions between two requests
+         else if (f == "--edge") edge = std::stoi(v);     // every run starts right before the end of a string storage block
          else if (f == "--ops") {
             ops.clear();
             std::stringstream ss(v);
@@ -199,6 +200,8 @@ namespace {
          // repeat earlier requests with some probability so that hits are as frequent as misses
          std::vector<Value> past;
          for (int k = 0; k < len; ++k) {
+            // (after a few requests, so that the first words of the first block are the history's own as well)
+            if (edge and k == 6) vh::to_edge(in.w.lex, rng.below(64));
             Value req;
             if (not past.empty() and rng.coin(35))
                req = past[rng.below(static_cast<int>(past.size()))];
